@@ -152,7 +152,7 @@ def run(ctx):
     ctx.rule("R09.9", "new subsystem: the manager of a function whose variable died is stopped, or - when not started yet - never started", floor=4)
     func_var_death_rule(ctx, program, "R09.9")
     ctx.rule("R09.15", "legacy ownership: an EvalFunc is held by at most one object whose finaliser stops its triggers (fresh, transferred with remove_func(), "
-             "never shared through get_func()/.func)", floor=3)
+             "never shared through get_func()/.func)", floor=1)  # (the number of construction sites is not part of the rule: duplicated branches may be merged)
     single_owner_rule(ctx, program, "R09.15")
     ctx.rule("R09.16", "new subsystem: a manager is in its context's manager set (which stop() walks) before its start is entered; while the context loads it is queued, not started", floor=2)
     tracked_before_start_rule(ctx, program, "R09.16")
